@@ -1522,4 +1522,284 @@ Section Real.
     - apply IH; exact Drest.
   Qed.
 
+  (* ---- multiple time stepping of one bias: evaluation and impulse ----------------------------------- *)
+  Definition inst_force (b : bias) (xs : list (list cvc)) (nv k : nat) : R :=
+    rsum (map (fun i => contrib (b_vars b) (b_forces b) i * gsum (nth i xs []) k) (seq 0 nv)).
+
+  Lemma CF_one_active (b : bias) xs nv k : b_active b && b_apply b = true ->
+    CF [b] xs nv k = IZR (b_tsf b) * inst_force b xs nv k.
+  Proof.
+    intros H. unfold CF, inst_force. rewrite <- rsum_map_scal. apply rsum_map_ext. intros i _.
+    unfold VF, bforce. cbn [map rsum]. rewrite H. lra.
+  Qed.
+
+  Definition selem := (Z * bias * list (list cvc))%type.
+
+  Fixpoint strace (nv : nat) (it : Z) (first : bool) (b : bias) (xss : list (list (list cvc))) : list selem :=
+    match xss with
+    | [] => []
+    | xs :: r =>
+      let it' := if first then it else (it + 1)%Z in
+      let b' := bias_step it' nv xs b in
+      (it', b', xs) :: strace nv it' false b' r
+    end.
+
+  Definition lift1 (t : selem) : sout := let '(it, b, xs) := t in (it, [b], xs).
+
+  Lemma btrace_single nv xss : forall it first (b : bias),
+    btrace nv (it, first, [b]) (map EStep xss) = map lift1 (strace nv it first b xss).
+  Proof.
+    induction xss as [|xs r IH]; intros it first b; [reflexivity|].
+    cbn [map btrace bstep strace app lift1]. rewrite IH. reflexivity.
+  Qed.
+
+  Lemma strace_length nv xss : forall it first (b : bias), length (strace nv it first b xss) = length xss.
+  Proof. induction xss as [|xs r IH]; intros it first b; cbn [strace length]; [reflexivity | rewrite IH; reflexivity]. Qed.
+
+  Lemma wake_self_data it (b : bias) :
+    b_st (wake_self fixed it b) = b_st b /\ b_energy (wake_self fixed it b) = b_energy b /\
+    b_forces (wake_self fixed it b) = b_forces b.
+  Proof.
+    unfold wake_self, enable_awake_self, disable_awake_self, decr_active_self, disable_active_self, enable_active_self.
+    destruct b as [id tsf vars byp app upd st act rc aw e fs]. cbn.
+    repeat match goal with |- context [if ?c then _ else _] => destruct c; cbn end; auto.
+  Qed.
+
+  (* what one calc() does to a bias with factor n > 1 *)
+  Definition eval_step (nv : nat) (bp b : bias) (it : Z) (xs : list (list cvc)) : Prop :=
+    if on_schedule it (b_tsf bp) then
+      b_active b = true /\
+      (b_st b, (b_energy b, b_forces b)) = b_upd bp (b_st bp) it (map (fresh nv xs) (b_vars bp))
+    else
+      b_active b = false /\ b_st b = b_st bp /\ b_energy b = b_energy bp /\ b_forces b = b_forces bp.
+
+  Lemma bias_step_eval it nv xs (bp : bias) :
+    fixed = true -> FS bp -> (1 <? b_tsf bp)%Z = true ->
+    let b := bias_step it nv xs bp in
+    FS b /\ same_static bp b /\ eval_step nv bp b it xs.
+  Proof.
+    intros Hf F Ht. cbn zeta. unfold bias_step, eval_step.
+    pose proof (wake_self_static it bp) as W1. pose proof (wake_self_data it bp) as (D1 & D2 & D3).
+    destruct (update_pure_flags it nv xs (wake_self fixed it bp)) as (U1 & U2 & U3 & U4).
+    split; [|split; [eapply same_static_trans; eassumption|]].
+    - destruct (on_schedule it (b_tsf bp)) eqn:Es.
+      + pose proof (wake_self_on it bp F Ht Es) as (X1 & X2 & X3). right; left. unfold SA. rewrite U2, U3, U4. auto.
+      + pose proof (wake_self_off it bp Hf F Ht Es) as (X1 & X2 & X3). right; right. unfold SS. rewrite U2, U3, U4. auto.
+    - destruct (on_schedule it (b_tsf bp)) eqn:Es.
+      + pose proof (wake_self_on it bp F Ht Es) as (X1 & X2 & X3).
+        split; [congruence|].
+        unfold bias_update_pure. rewrite X1.
+        destruct W1 as (_ & _ & V1 & _ & _ & V2). rewrite V1, V2, D1.
+        destruct (b_upd bp (b_st bp) it (map (fresh nv xs) (b_vars bp))) as [s' [e fs]].
+        destruct (wake_self fixed it bp); reflexivity.
+      + pose proof (wake_self_off it bp Hf F Ht Es) as (X1 & X2 & X3).
+        split; [congruence|].
+        unfold bias_update_pure. rewrite X1. auto.
+  Qed.
+
+  (* elements of the single-bias trace: step number, activity, evaluation *)
+  Lemma strace_nth nv xss : forall it first (b0 : bias) k t,
+    fixed = true -> FS b0 -> (1 <? b_tsf b0)%Z = true ->
+    nth_error (strace nv it first b0 xss) k = Some t ->
+    let it1 := if first then it else (it + 1)%Z in
+    fst (fst t) = (it1 + Z.of_nat k)%Z /\ b_tsf (snd (fst t)) = b_tsf b0 /\
+    b_active (snd (fst t)) = on_schedule (it1 + Z.of_nat k) (b_tsf b0) /\
+    nth_error xss k = Some (snd t).
+  Proof.
+    induction xss as [|xs r IH]; intros it first b0 k t Hf F Ht Hk; [destruct k; discriminate|].
+    cbn [strace] in Hk. cbn zeta.
+    destruct (bias_step_eval (if first then it else (it + 1)%Z) nv xs b0 Hf F Ht) as (F' & (_ & T' & _) & Ev).
+    destruct k as [|k]; cbn [nth_error] in *.
+    - inversion Hk; subst t. cbn [fst snd]. rewrite Z.add_0_r. split; [reflexivity|]. split; [exact T'|].
+      split; [|reflexivity]. unfold eval_step in Ev.
+      destruct (on_schedule (if first then it else (it + 1)%Z) (b_tsf b0)); tauto.
+    - specialize (IH (if first then it else (it + 1)%Z) false _ k t Hf F' ltac:(rewrite T'; exact Ht) Hk).
+      cbn zeta in IH. rewrite T' in IH.
+      replace ((if first then it else (it + 1)%Z) + Z.of_nat (S k))%Z
+        with ((if first then it else (it + 1)%Z) + 1 + Z.of_nat k)%Z by lia.
+      exact IH.
+  Qed.
+
+  Lemma off_schedule_inside m n d : (0 < n)%Z -> (0 <= m * n)%Z -> (0 < d < n)%Z ->
+    on_schedule (m * n + d) n = false.
+  Proof.
+    intros Hn Hm Hd. unfold on_schedule. apply Z.eqb_neq.
+    rewrite Z.rem_mod_nonneg; [|lia|lia].
+    rewrite Z.add_comm, Z_mod_plus_full, Z.mod_small; lia.
+  Qed.
+
+  Lemma on_schedule_multiple m n : (0 < n)%Z -> on_schedule (m * n) n = true.
+  Proof. intros Hn. unfold on_schedule. apply Z.eqb_eq. apply Z.rem_mul. lia. Qed.
+
+  Lemma nth_error_firstn' {A} (l : list A) : forall n i, (i < n)%nat -> nth_error (firstn n l) i = nth_error l i.
+  Proof.
+    induction l as [|x l IH]; intros n i H.
+    - rewrite firstn_nil. reflexivity.
+    - destruct n as [|n]; [lia|]. destruct i as [|i]; cbn [firstn nth_error]; [reflexivity|]. apply IH. lia.
+  Qed.
+  Lemma nth_error_skipn' {A} (l : list A) : forall n i, nth_error (skipn n l) i = nth_error l (n + i).
+  Proof.
+    induction l as [|x l IH]; intros n i.
+    - rewrite skipn_nil. destruct i, n; reflexivity.
+    - destruct n as [|n]; cbn [skipn Nat.add nth_error]; [reflexivity|]. apply IH.
+  Qed.
+
+  (* sum of a window whose elements after the first contribute nothing *)
+  Lemma window_sum {A} (F : A -> R) (l : list A) j n x :
+    nth_error l j = Some x ->
+    (forall d y, (0 < d < S n)%nat -> nth_error l (j + d) = Some y -> F y = 0) ->
+    rsum (map F (firstn (S n) (skipn j l))) = F x.
+  Proof.
+    intros Hj Hz.
+    assert (E : skipn j l = x :: skipn (S j) l).
+    { revert l Hj Hz. induction j as [|j IH]; intros l Hj Hz; destruct l as [|y l]; try discriminate.
+      - cbn in Hj. inversion Hj; reflexivity.
+      - cbn [nth_error] in Hj. cbn [skipn]. apply IH; [exact Hj|].
+        intros d z Hd Hn. apply (Hz d z Hd). exact Hn. }
+    rewrite E. cbn [firstn map rsum].
+    rewrite rsum_map_zero; [lra|].
+    intros y Hy. apply In_nth_error in Hy. destruct Hy as [i Hi].
+    assert (Li : (i < n)%nat).
+    { assert (i < length (firstn n (skipn (S j) l)))%nat by (apply nth_error_Some; congruence).
+      rewrite firstn_length in H. lia. }
+    rewrite nth_error_firstn' in Hi; [|exact Li].
+    rewrite nth_error_skipn' in Hi.
+    apply (Hz (S i) y); [lia|]. replace (j + S i)%nat with (S j + i)%nat by lia. exact Hi.
+  Qed.
+
+  Lemma Forall2_skipn {A B} (P : A -> B -> Prop) l1 l2 : Forall2 P l1 l2 -> forall n, Forall2 P (skipn n l1) (skipn n l2).
+  Proof.
+    induction 1 as [|a b l1 l2 Hab Hl IH]; intros n; destruct n; cbn [skipn]; try constructor; auto.
+  Qed.
+  Lemma Forall2_firstn {A B} (P : A -> B -> Prop) l1 l2 : Forall2 P l1 l2 -> forall n, Forall2 P (firstn n l1) (firstn n l2).
+  Proof.
+    induction 1 as [|a b l1 l2 Hab Hl IH]; intros n; destruct n; cbn [firstn]; try constructor; auto.
+  Qed.
+  Lemma Forall2_impl' {A B} (P Q : A -> B -> Prop) l1 l2 :
+    (forall a b, P a b -> Q a b) -> Forall2 P l1 l2 -> Forall2 Q l1 l2.
+  Proof. intros H; induction 1; constructor; auto. Qed.
+  Lemma Forall2_rsum {A B} (F : A -> R) (G : B -> R) l1 l2 :
+    Forall2 (fun a b => F a = G b) l1 l2 -> rsum (map F l1) = rsum (map G l2).
+  Proof. induction 1 as [|a b l1 l2 Hab Hl IH]; cbn [map rsum]; [reflexivity | rewrite Hab, IH; reflexivity]. Qed.
+  Lemma Forall2_nth {A B} (P : A -> B -> Prop) l1 l2 : Forall2 P l1 l2 ->
+    forall k b, nth_error l2 k = Some b -> exists a, nth_error l1 k = Some a /\ P a b.
+  Proof.
+    induction 1 as [|a0 b0 l1 l2 Hab Hl IH]; intros k b Hk; destruct k; try discriminate; cbn [nth_error] in *.
+    - inversion Hk; subst. eauto.
+    - apply IH; exact Hk.
+  Qed.
+
+  (* outputs of a single-bias run against its trace *)
+  Definition out_ok1 (nv : nat) (o : @out R BS) (t : selem) : Prop :=
+    let '(it, b, xs) := t in
+    o_it o = it /\ o_biases o = [b] /\
+    o_energy o = (if counts_energy efix b then b_energy b else 0) /\
+    forall k, coord_force Rops (o_vars o) k = CF [b] xs nv k.
+
+  Lemma run_single_closed it0 tsfs (c : @bias_cfg R BS) xss :
+    Forall2 (out_ok1 (length tsfs)) (run_cfg Rops fixed efix it0 tsfs [c] (map EStep xss))
+            (strace (length tsfs) it0 true (init_bias Rops c) xss).
+  Proof.
+    pose proof (run_cfg_closed it0 tsfs [c] (map EStep xss)) as H.
+    cbn [map] in H. rewrite btrace_single in H.
+    revert H. generalize (run_cfg Rops fixed efix it0 tsfs [c] (map EStep xss)).
+    induction (strace (length tsfs) it0 true (init_bias Rops c) xss) as [|t l IH]; intros lo H;
+      inversion H as [|o ? lo' ? Ho Hl]; subst; constructor.
+    - destruct t as [[it b] xs]. cbn [lift1 out_ok out_ok1] in *. rewrite EN_one in Ho. exact Ho.
+    - apply IH; exact Hl.
+  Qed.
+
+  (* every calc(): evaluated iff the step is a multiple of n; otherwise nothing is applied *)
+  Fixpoint eval_ok (nv : nat) (bp : bias) (outs : list (@out R BS)) (xss : list (list (list cvc))) : Prop :=
+    match outs, xss with
+    | [], [] => True
+    | o :: outs', xs :: xss' =>
+      exists b, o_biases o = [b] /\ eval_step nv bp b (o_it o) xs /\
+        (if on_schedule (o_it o) (b_tsf bp) then
+           forall k, coord_force Rops (o_vars o) k = (if b_apply b then IZR (b_tsf bp) * inst_force b xs nv k else 0)
+         else o_energy o = 0 /\ forall k, coord_force Rops (o_vars o) k = 0) /\
+        eval_ok nv b outs' xss'
+    | _, _ => False
+    end.
+
+  Lemma strace_eval_ok nv xss : forall it first (bp : bias) outs,
+    fixed = true -> FS bp -> (1 <? b_tsf bp)%Z = true ->
+    Forall2 (out_ok1 nv) outs (strace nv it first bp xss) -> eval_ok nv bp outs xss.
+  Proof.
+    induction xss as [|xs r IH]; intros it first bp outs Hf F Ht H.
+    - inversion H; subst. exact I.
+    - cbn [strace] in H. inversion H as [|o ? outs' ? Ho Hl]; subst. cbn [eval_ok].
+      destruct (bias_step_eval (if first then it else (it + 1)%Z) nv xs bp Hf F Ht) as (F' & St & Ev).
+      set (b := bias_step (if first then it else (it + 1)%Z) nv xs bp) in *.
+      destruct Ho as (O1 & O2 & O3 & O4). exists b. rewrite O1.
+      destruct St as (_ & T' & _ & _ & A' & _).
+      split; [exact O2|]. split; [exact Ev|]. split.
+      + unfold eval_step in Ev. destruct (on_schedule (if first then it else (it + 1)%Z) (b_tsf bp)).
+        * destruct Ev as [Ea _]. intros k. rewrite O4. destruct (b_apply b) eqn:Eap.
+          -- rewrite CF_one_active; [rewrite T'; reflexivity | rewrite Ea, Eap; reflexivity].
+          -- apply CF_one_zero. rewrite Eap. apply andb_false_r.
+        * destruct Ev as [Ea _]. split.
+          -- rewrite O3. unfold counts_energy. rewrite Ea. reflexivity.
+          -- intros k. rewrite O4. apply CF_one_zero. rewrite Ea. reflexivity.
+      + apply (IH (if first then it else (it + 1)%Z) false b outs' Hf F'); [rewrite T'; exact Ht | exact Hl].
+  Qed.
+
+  Theorem mts_evaluation it0 tsfs (c : @bias_cfg R BS) xss :
+    fixed = true -> (1 < bc_tsf c)%Z ->
+    eval_ok (length tsfs) (init_bias Rops c) (run_cfg Rops fixed efix it0 tsfs [c] (map EStep xss)) xss.
+  Proof.
+    intros Hf Hn. eapply strace_eval_ok; [exact Hf | apply init_bias_FS | | apply run_single_closed].
+    cbn. apply Z.ltb_lt. exact Hn.
+  Qed.
+
+  Theorem impulse_window it0 tsfs (c : @bias_cfg R BS) xss m k :
+    fixed = true -> (1 < bc_tsf c)%Z -> (0 <= it0)%Z -> (it0 <= m * bc_tsf c)%Z ->
+    let n := bc_tsf c in
+    let j := Z.to_nat (m * n - it0) in
+    (j + Z.to_nat n <= length xss)%nat ->
+    let outs := run_cfg Rops fixed efix it0 tsfs [c] (map EStep xss) in
+    exists o b xs,
+      nth_error outs j = Some o /\ o_biases o = [b] /\ nth_error xss j = Some xs /\
+      o_it o = (m * n)%Z /\ b_active b = true /\
+      rsum (map (fun o => coord_force Rops (o_vars o) k) (firstn (Z.to_nat n) (skipn j outs)))
+      = (if b_apply b then IZR n * inst_force b xs (length tsfs) k else 0).
+  Proof.
+    intros Hf Hn H0 Hm. cbn zeta. intros Hlen.
+    set (n := bc_tsf c) in *. set (j := Z.to_nat (m * n - it0)) in *.
+    set (nv := length tsfs).
+    pose proof (run_single_closed it0 tsfs c xss) as HS. fold nv in HS.
+    set (outs := run_cfg Rops fixed efix it0 tsfs [c] (map EStep xss)) in *.
+    set (l := strace nv it0 true (init_bias Rops c) xss) in *.
+    assert (Ht : (1 <? b_tsf (init_bias Rops c))%Z = true) by (cbn; apply Z.ltb_lt; exact Hn).
+    assert (Hnth : forall i t, nth_error l i = Some t ->
+              fst (fst t) = (it0 + Z.of_nat i)%Z /\ b_tsf (snd (fst t)) = n /\
+              b_active (snd (fst t)) = on_schedule (it0 + Z.of_nat i) n /\ nth_error xss i = Some (snd t)).
+    { intros i t Hi. apply (strace_nth nv xss it0 true (init_bias Rops c) i t Hf (init_bias_FS c) Ht Hi). }
+    assert (Ll : length l = length xss).
+    { unfold l. apply strace_length. }
+    assert (Zn : Z.to_nat n = S (Z.to_nat n - 1)) by lia.
+    destruct (nth_error l j) as [t|] eqn:Ej; [|apply nth_error_None in Ej; lia].
+    destruct (Hnth j t Ej) as (T1 & T2 & T3 & T4).
+    assert (Ej' : (it0 + Z.of_nat j = m * n)%Z) by (unfold j; lia).
+    rewrite Ej' in T1, T3. rewrite on_schedule_multiple in T3 by lia.
+    destruct (Forall2_nth _ _ _ HS j t Ej) as (o & Eo & Ho).
+    destruct t as [[it b] xs]. cbn [fst snd] in *. subst it.
+    destruct Ho as (O1 & O2 & O3 & O4).
+    exists o, b, xs. repeat (split; [first [assumption | reflexivity]|]).
+    (* the window *)
+    assert (HW : Forall2 (fun (o : @out R BS) (t : selem) => coord_force Rops (o_vars o) k = CF [snd (fst t)] (snd t) nv k)
+                         (firstn (Z.to_nat n) (skipn j outs)) (firstn (Z.to_nat n) (skipn j l))).
+    { apply Forall2_firstn, Forall2_skipn.
+      eapply Forall2_impl'; [|exact HS]. intros o' [[it' b'] xs'] (_ & _ & _ & P4). cbn [fst snd]. apply P4. }
+    rewrite (Forall2_rsum _ _ _ _ HW). rewrite Zn.
+    rewrite (window_sum (fun t : selem => CF [snd (fst t)] (snd t) nv k) l j (Z.to_nat n - 1) _ Ej).
+    - cbn [fst snd]. destruct (b_apply b) eqn:Eap.
+      + rewrite CF_one_active; [rewrite T2; reflexivity | rewrite T3, Eap; reflexivity].
+      + apply CF_one_zero. rewrite Eap. apply andb_false_r.
+    - intros d y Hd Hy. destruct (Hnth (j + d)%nat y Hy) as (Y1 & Y2 & Y3 & Y4).
+      apply CF_one_zero. rewrite Y3.
+      replace (it0 + Z.of_nat (j + d))%Z with (m * n + Z.of_nat d)%Z by lia.
+      rewrite off_schedule_inside; [reflexivity | lia | lia | lia].
+  Qed.
+
 End Real.
